@@ -196,11 +196,11 @@ def random_traces(ctx, prop, tier, seed):
             bias = [0.2, 0.5, 0.8][h % 3]
             starts.append(len(events))
             events += rm.random_history(lay, rng, steps, bias_space=bias, max_leaves=cap,
-                                        compound=0.03 if h % 2 else 0.0)
+                                        compound=0.03 if h % 2 else 0.0, companions=0.15 if h % 2 == 0 else 0.0)
         # float grids as used by the driver (dyadic floats are exact)
         layf = ml.Layout([float(t) for t in range(Nt + 1)], [0.5 * i for i in range(Nx + 1)], glue, maxl)
         starts.append(len(events))
-        events += rm.random_history(layf, rng, steps, bias_space=0.5, max_leaves=cap)
+        events += rm.random_history(layf, rng, steps, bias_space=0.5, max_leaves=cap, companions=0.2)
         bad, jres = rm.judge(lay, events, timeout=3000)
         total_events += len(events)
         total_traces += len(starts)
